@@ -112,3 +112,15 @@ NOT_APPLICABLE = {
 }
 HOOK_COMMITS = ["a595cb4", "8d4e42a", "747697f", "d2148d0"]
 NOTES = "Contract-based deductive verification of the real code; see DESIGN.md. exit 2 = undecided (never a VIOLATION)."
+
+# where a function that other units enter as a contract-only stub is actually proved
+PROVED_IN = {
+    "messages::HtlcFailReason::encode": "Kani harnesses encode_policy_exact / encode_constants_exact (full input domain), run by ./check C12",
+    "messages::TrampolineRoutingPolicy::fee_sufficient": "unit fee",
+    "htlc_manager::PaymentState::resolve": "unit paystate",
+    "htlc_manager::PaymentState::add_htlc": "unit paystate",
+    "htlc_manager::PaymentState::fail": "unit paystate",
+    "tlv::ProtoBuf::get_compact_size": "unit tlv_dec",
+    "tlv::SerializedTlvStream::from_bytes": "unit tlv_dec",
+    "tlv::SerializedTlvStream::try_from": "unit tlv_dec",
+}
